@@ -136,6 +136,12 @@ Definition nontrivial_case (inp : list Z) : bool :=
   let obs := observe j0 ops in
   negb (Nat.eqb (length (flat_map o_effs obs)) 0) && Nat.leb 2 (changes j0 obs).
 
-(* no known finding on the current tree: the same-node finding (Spec.finding_code, sig 1 of the
-   old variant) was repaired by commit 025e424, so a same-node eviction is a plain violation now *)
-Definition finding_sig (inp obs : list Z) : Z := 0.
+(* the known-finding shapes of the current tree: 2 = a job failed for timeout leaves behind a
+   reservation it created but never recorded (Spec.finding_code). Shape 1 (same-node check cached)
+   was repaired by commit 025e424, so a same-node eviction is a plain violation now. *)
+Definition finding_sig (inp obs : list Z) : Z :=
+  let '(j0, ops) := decode inp in
+  match parse_obs j0 (length ops) obs with
+  | Some o => if finding_code j0 ops o =? 2 then 2 else 0
+  | None => 0
+  end.
